@@ -5,19 +5,23 @@ import FpgoVerif.Model.C15Core
                            blocks while no room; send on the closed channel panics and is recovered = dropped⟩
     Close():              ⟨c0: isClosed.Set(true)⟩ ⟨c1: close(ch)⟩
     run():                ⟨r0: m, ok := <-ch; closed and drained → exit⟩ ⟨r1: fn() / effect(self, m)⟩
+    Callbacks (by message id): 100–299 block until the harness opens the gate; 300–399 call Close() on their own
+    handler/actor from inside the callback (the loop goroutine itself performs ⟨isClosed.Set(true)⟩ ⟨c1: close(ch)⟩
+    and then returns to the loop — `selfClosing`); 400–499 wait for something the closing goroutine does only after
+    its Close() has returned (`closeDone`).  `waitclosed` (wc) is a user goroutine waiting for that same event.
     `recovers = false` is the code before fa052a2 (kept for the refutation theorem only). -/
 
 namespace FpgoVerif.C15.Mb
 
-inductive Kind | p0 | p1 | c0 | c1 | r0 | r1
+inductive Kind | p0 | p1 | c0 | c1 | r0 | r1 | wc
 deriving DecidableEq, Repr
 
 inductive PC
-  | p0 (m : Nat) | p1 (m : Nat) | c0 | c1 | r0 | r1 (m : Nat)
+  | p0 (m : Nat) | p1 (m : Nat) | c0 | c1 | r0 | r1 (m : Nat) | wc
 deriving DecidableEq, Repr
 
 def kind : PC → Kind
-  | .p0 _ => .p0 | .p1 _ => .p1 | .c0 => .c0 | .c1 => .c1 | .r0 => .r0 | .r1 _ => .r1
+  | .p0 _ => .p0 | .p1 _ => .p1 | .c0 => .c0 | .c1 => .c1 | .r0 => .r0 | .r1 _ => .r1 | .wc => .wc
 
 structure St where
   cap : Nat
@@ -27,6 +31,8 @@ structure St where
   buf : List Nat := []
   closeStarted : Bool := false
   closeDone : Bool := false
+  /-- the loop goroutine is inside a callback's Close() (between the flag and close(ch)) -/
+  selfClosing : Bool := false
   panic : Bool := false
   /-- closed-checks passed after Close had returned (must stay 0) -/
   late : Nat := 0
@@ -36,8 +42,12 @@ structure St where
 
 def init (cap : Nat) (recovers : Bool) : St := { cap := cap, recovers := recovers }
 
-/-- messages ≥ 100 carry a callback that blocks until the harness opens the gate -/
-def blocking (m : Nat) : Bool := decide (100 ≤ m)
+/-- messages 100–299 carry a callback that blocks until the harness opens the gate -/
+def blocking (m : Nat) : Bool := decide (100 ≤ m) && decide (m < 300)
+/-- messages 300–399: the callback closes its own handler/actor -/
+def selfClose (m : Nat) : Bool := decide (300 ≤ m) && decide (m < 400)
+/-- messages 400–499: the callback waits for what the closer does right after Close() returned -/
+def waitsClose (m : Nat) : Bool := decide (400 ≤ m) && decide (m < 500)
 
 def room (s : St) : Bool :=
   decide (s.buf.length < s.cap) || (s.cap == 0 && s.buf.isEmpty && decide (0 < s.cnt .r0))
@@ -55,6 +65,7 @@ def step (s : St) : PC → Option (St × Next PC)
   | .c0 => some ({ s with flag := true }, .at .c1)
   | .c1 =>
     if s.chClosed then some ({ s with panic := true }, .fin .panic)
+    else if s.selfClosing then some ({ s with chClosed := true, closeDone := true, selfClosing := false }, .at .r0)
     else some ({ s with chClosed := true, closeDone := true }, .fin .ok)
   | .r0 =>
     match s.buf with
@@ -62,7 +73,11 @@ def step (s : St) : PC → Option (St × Next PC)
     | [] => if s.chClosed then some (s, .fin .ok) else none
   | .r1 m =>
     if blocking m && !s.gate then none
+    else if waitsClose m && !s.closeDone then none
+    else if selfClose m && !s.closeStarted then
+      some ({ s with closeStarted := true, selfClosing := true, flag := true }, .at .c1)
     else some ({ s with ran := s.ran ++ [m] }, .at .r0)
+  | .wc => if s.closeDone then some (s, .fin .ok) else none
 
 def move (c : Kind → Nat) (src : Kind) : Next PC → Kind → Nat
   | .at pc' => updK (updK c src (c src - 1)) (kind pc') (updK c src (c src - 1) (kind pc') + 1)
@@ -79,6 +94,7 @@ def gstep (s : St) (pc : PC) (_choice : Bool) : Option (St × Next PC) :=
 def spawn (s : St) : PC → Option St
   | .p0 _ => some { s with cnt := updK s.cnt .p0 (s.cnt .p0 + 1) }
   | .c0 => if s.closeStarted then none else some { s with closeStarted := true, cnt := updK s.cnt .c0 (s.cnt .c0 + 1) }
+  | .wc => some { s with cnt := updK s.cnt .wc (s.cnt .wc + 1) }
   | _ => none
 
 inductive Reach (cap : Nat) (recovers : Bool) : St → Prop
@@ -97,6 +113,7 @@ def startOp (_s : St) (op : String) : Option PC :=
   match op.splitOn ":" with
   | ["post", m] => m.toNat?.map .p0
   | ["close"] => some .c0
+  | ["waitclosed"] => some .wc
   | _ => none
 
 def kidx : Kind → Nat
@@ -106,7 +123,8 @@ def kidx : Kind → Nat
   | .c1 => 3
   | .r0 => 4
   | .r1 => 5
-def allKinds : List Kind := [.p0, .p1, .c0, .c1, .r0, .r1]
+  | .wc => 6
+def allKinds : List Kind := [.p0, .p1, .c0, .c1, .r0, .r1, .wc]
 /-- the same state with the counter function re-tabulated (see `compact_eq`) -/
 def compact (s : St) : St := { s with cnt := let t := allKinds.map s.cnt; fun k => tblGet t (kidx k) }
 theorem compact_eq (s : St) : compact s = s := by
